@@ -3,23 +3,25 @@ import SemVerif.Lemmas.Names
 /-!
 # Lemmas/T2Stmt — family T2, statement level
 
-`DRel s ss`: the abstract reading of the root stack so far is the statement list of the source
+`DRel g R s ss`: the abstract reading of the root stack so far is the statement list of the source
 denotation so far; the visible declarations correspond; every declared internal name is registered.
 Every statement-level analysis function that reports no error maps `DRel`-related states to
 `DRel`-related states (`StD`).
 -/
 namespace SemVerif
 
-structure DRel (s : St) (ss : SpecSt) : Prop where
+structure DRel (g : Globals) (R : Ty) (s : St) (ss : SpecSt) : Prop where
   scope : DScope s ss
   out : s.abs.out = ss.out
   next : s.abs.decls.length = ss.next
   reg : ∀ n ∈ s.abs.decls, n ∈ s.root.innerNames
   rd : RdInv s
+  /-- the typed scan of the root stack so far passes (C04), `R` the function's result type -/
+  tok : TOK g R s
 
 /-- a statement-level function that reports no error preserves the relation -/
-def StD (f : St → St) (F : SpecSt → SpecSt) : Prop :=
-  ∀ s ss, DRel s ss → (f s).errors = s.errors → DRel (f s) (F ss)
+def StD (g : Globals) (R : Ty) (f : St → St) (F : SpecSt → SpecSt) : Prop :=
+  ∀ s ss, DRel g R s ss → (f s).errors = s.errors → DRel g R (f s) (F ss)
 
 /-! ### Running an expression without errors -/
 
@@ -34,7 +36,7 @@ and denotes the source expression -/
 theorem expr_run {g : Globals} {rg : RGlobals} (hg : GlobRel g rg) (hn : GNames g) (e : Expr) {s : St} {ss : SpecSt}
     (hs : DScope s ss) (he : (exprM g e s).2.errors = s.errors) :
     ∃ r s1, exprM g e s = (some r, s1) ∧ s1.errors = s.errors ∧ (checkExpr rg ss.tscope e).2 = some r.ty ∧
-      Trans s s1 (specExpr false ss e).1 ∧ ResD s1 r (specExpr false ss e).2 := by
+      Trans g s s1 (specExpr false ss e).1 ∧ ResD s1 r (specExpr false ss e).2 := by
   have h1 := sim_exprM hg ss.tscope e s hs.sc
   cases hc : (checkExpr rg ss.tscope e).2 with
   | none =>
@@ -180,10 +182,34 @@ theorem rd_insertRegister {s : St} (h : RdInv s) (n m : Name) (v : Value) : RdIn
   · unfold St.registerInner St.mapFrames St.insertValue St.mapCur
     cases s.inner <;> rfl
 
+theorem tenv_insertValue (n : Name) (v : Value) (s : St) : (s.insertValue n v).tenv = s.tenv := by
+  apply tenv_of_ctx
+  unfold St.insertValue St.mapCur
+  cases s.inner <;> rfl
+
+theorem tenv_registerInner (n : Name) (s : St) : (s.registerInner n).tenv = s.tenv := tenv_of_ctx rfl
+
+theorem declOk_self (ds : List Value) (rs : List (Nat × Ty)) (v : Value) :
+    ({ regs := rs, decls := v :: ds } : TyEnv).declOk v = true := by
+  unfold TyEnv.declOk; simp [List.find?_cons]
+
+theorem declOk_cons {ds : List Value} {rs : List (Nat × Ty)} {v d : Value} (hne : d.innerName ≠ v.innerName)
+    (h : ({ regs := rs, decls := ds } : TyEnv).declOk v = true) :
+    ({ regs := rs, decls := d :: ds } : TyEnv).declOk v = true := by
+  unfold TyEnv.declOk at h ⊢
+  have : (d.innerName == v.innerName) = false := by simp [hne]
+  simp only [List.find?_cons, this]
+  exact h
+
+theorem declOk_mem {e : TyEnv} {v : Value} (h : e.declOk v = true) : v ∈ e.decls := by
+  unfold TyEnv.declOk at h
+  have h' : e.decls.find? (fun d => d.innerName == v.innerName) = some v := by simpa using h
+  exact List.mem_of_find?_eq_some h'
+
 /-! ### `let` -/
 
-theorem den_let {g : Globals} {rg : RGlobals} (hg : GlobRel g rg) (hn : GNames g) (b : LetB) :
-    StD (letBinding g b) (specLet false rg b) := by
+theorem den_let {g : Globals} {R : Ty} {rg : RGlobals} (hg : GlobRel g rg) (hn : GNames g) (b : LetB) :
+    StD g R (letBinding g b) (specLet false rg b) := by
   intro s ss hr he
   unfold letBinding at he ⊢
   obtain ⟨Δ1, x1⟩ := exprM_ext g b.value s
@@ -235,13 +261,34 @@ theorem den_let {g : Globals} {rg : RGlobals} (hg : GlobRel g rg) (hn : GNames g
         rw [hty]
         simp only [Option.getD_some]
         have hlen : s1.abs.decls.length = ss.next := by rw [t1.decls]; exact hr.next
-        refine ⟨⟨?_, ?_⟩, ?_, ?_, ?_, ?_⟩
-        rotate_left 5
+        have hs1 := hr.scope.of_trans t1
+        have htenv : (((s1.insertValue b.name ⟨inner, r.ty, b.mutable, false, false⟩).registerInner inner).push
+            (.letBinding ⟨inner, r.ty, b.mutable, false, false⟩ r)).tenv =
+            { s1.tenv with decls := ⟨inner, r.ty, b.mutable, false, false⟩ :: s1.tenv.decls } := by
+          rw [tenv_push, tenv_registerInner, tenv_insertValue]; rfl
+        have hroot : (((s1.insertValue b.name ⟨inner, r.ty, b.mutable, false, false⟩).registerInner inner).push
+            (.letBinding ⟨inner, r.ty, b.mutable, false, false⟩ r)).root.innerNames = setInsert inner s1.root.innerNames := by
+          unfold St.push St.registerInner St.mapFrames St.insertValue St.mapCur
+          cases s1.inner <;> rfl
+        have hold : ∀ v, s1.tenv.declOk v = true → v.innerName ≠ inner := by
+          intro v hv hev
+          have := hs1.dn v (declOk_mem hv)
+          rw [hev] at this
+          exact innerUsed_false_root' hfresh this
+        refine ⟨⟨?_, ?_, ?_, ?_⟩, ?_, ?_, ?_, ?_, ?_⟩
+        rotate_left 7
         · -- reads
           apply rd_push_nowrite (rd_insertRegister (t1.rd hr.rd) _ _ _) _ rfl
           intro q hq
           rw [curReg_insertRegister, abs_registerInner, abs_insertValue]
           exact hh.regs q hq
+        · -- typed scan
+          apply tok_push _ (tok_of_ctx _ (t1.tok R hr.tok))
+          · intro bb hb
+            rw [tenv_registerInner, tenv_insertValue] at hb
+            simp [tyStepBad, badIf, hh.operandOk] at hb
+          · unfold St.registerInner St.mapFrames St.insertValue St.mapCur
+            cases s1.inner <;> rfl
         · -- types
           unfold ScopeRel
           rw [vals_push, vals_registerInner]
@@ -268,6 +315,30 @@ theorem den_let {g : Globals} {rg : RGlobals} (hg : GlobRel g rg) (hn : GNames g
             dsimp only
             rw [← hlen]
             exact dvals_declare hdv' b.name ⟨inner, r.ty, b.mutable, false, false⟩ _ (pjD_new _ ⟨inner, r.ty, b.mutable, false, false⟩ hnot)
+        · -- value records against declarations
+          rw [htenv, vals_push, vals_registerInner]
+          obtain ⟨x, rest, hx, hins⟩ := vals_insertValue b.name ⟨inner, r.ty, b.mutable, false, false⟩ s1
+          rw [hins]
+          intro fr hfr n v hv
+          have hcase : v = ⟨inner, r.ty, b.mutable, false, false⟩ ∨ s1.tenv.declOk v = true := by
+            simp only [List.mem_cons] at hfr
+            rcases hfr with rfl | hfr
+            · by_cases hk : n = b.name
+              · subst hk; rw [assocGet_insert_self] at hv; injection hv with hv; exact Or.inl hv.symm
+              · rw [assocGet_insert_ne _ _ _ _ hk] at hv
+                exact Or.inr (hs1.dk x (by rw [hx]; simp) n v hv)
+            · exact Or.inr (hs1.dk fr (by rw [hx]; simp [hfr]) n v hv)
+          rcases hcase with rfl | hok
+          · exact declOk_self _ _ _
+          · exact declOk_cons (fun e => hold v hok e.symm) hok
+        · -- declared records carry registered names
+          rw [htenv, hroot]
+          intro d hd
+          simp only [List.mem_cons] at hd
+          rw [mem_setInsert]
+          rcases hd with rfl | hd
+          · exact Or.inl rfl
+          · exact Or.inr (hs1.dn d hd)
         · rw [habs]
           simp only [AbsSt.emit_out, SpecSt.declare, SpecSt.emits, SpecSt.emit]
           rw [t1.out, hr.out, r1, hlen]
@@ -277,10 +348,6 @@ theorem den_let {g : Globals} {rg : RGlobals} (hg : GlobRel g rg) (hn : GNames g
         · intro n hnm
           rw [habs] at hnm
           simp only [AbsSt.emit_decls, List.mem_append, List.mem_singleton] at hnm
-          have hroot : (((s1.insertValue b.name ⟨inner, r.ty, b.mutable, false, false⟩).registerInner inner).push
-              (.letBinding ⟨inner, r.ty, b.mutable, false, false⟩ r)).root.innerNames = setInsert inner s1.root.innerNames := by
-            unfold St.push St.registerInner St.mapFrames St.insertValue St.mapCur
-            cases s1.inner <;> rfl
           rw [hroot, mem_setInsert]
           rcases hnm with hnm | rfl
           · right; rw [t1.rootNames]; exact hr.reg n (by rw [← t1.decls]; exact hnm)
@@ -289,19 +356,24 @@ theorem den_let {g : Globals} {rg : RGlobals} (hg : GlobRel g rg) (hn : GNames g
 
 /-! ### Relation bookkeeping for the remaining statements -/
 
-theorem drel_trans {s s1 : St} {ss : SpecSt} {evs : List DStmt} (hr : DRel s ss) (t1 : Trans s s1 evs) :
-    DRel s1 (ss.emits evs) :=
-  ⟨⟨(hr.scope.of_trans t1).sc, (hr.scope.of_trans t1).dv⟩, by rw [t1.out, hr.out]; rfl, by rw [t1.decls]; exact hr.next,
-   fun n hn => by rw [t1.rootNames]; exact hr.reg n (by rw [← t1.decls]; exact hn), t1.rd hr.rd⟩
+theorem drel_trans {g : Globals} {R : Ty} {s s1 : St} {ss : SpecSt} {evs : List DStmt} (hr : DRel g R s ss) (t1 : Trans g s s1 evs) :
+    DRel g R s1 (ss.emits evs) :=
+  ⟨⟨(hr.scope.of_trans t1).sc, (hr.scope.of_trans t1).dv, (hr.scope.of_trans t1).dk, (hr.scope.of_trans t1).dn⟩, by rw [t1.out, hr.out]; rfl, by rw [t1.decls]; exact hr.next,
+   fun n hn => by rw [t1.rootNames]; exact hr.reg n (by rw [← t1.decls]; exact hn), t1.rd hr.rd, t1.tok R hr.tok⟩
 
 /-- pushing a statement-level instruction that only appends statement `d` to the abstract reading -/
-theorem drel_push_emit {s : St} {ss : SpecSt} (hr : DRel s ss) (i : Instr) (d : DStmt)
+theorem drel_push_emit {g : Globals} {R : Ty} {s : St} {ss : SpecSt} (hr : DRel g R s ss) (i : Instr) (d : DStmt)
     (ho : (abstractStep s.abs i).out = s.abs.out ++ [d]) (hd : (abstractStep s.abs i).decls = s.abs.decls)
-    (hw : i.writes = none) (hrd : ∀ q ∈ i.reads, q ≤ s.curReg ∧ s.abs.bound q = true) :
-    DRel (s.push i) (ss.emit d) :=
-  ⟨⟨by unfold ScopeRel; rw [vals_push]; exact hr.scope.sc, by rw [abs_push, hd, vals_push]; exact hr.scope.dv⟩,
+    (hw : i.writes = none) (hrd : ∀ q ∈ i.reads, q ≤ s.curReg ∧ s.abs.bound q = true)
+    (hnd : (∀ v n, i ≠ .fnArg v n) ∧ (∀ v x, i ≠ .letBinding v x))
+    (hty : ∀ b ∈ tyStepBad (cOkOf g) (fOkOf g) R s.tenv i, b.known i = true) :
+    DRel g R (s.push i) (ss.emit d) :=
+  have htd : (s.push i).tenv.decls = s.tenv.decls := by rw [tenv_push]; exact tenv_step_decls _ _ hnd.1 hnd.2
+  ⟨⟨by unfold ScopeRel; rw [vals_push]; exact hr.scope.sc, by rw [abs_push, hd, vals_push]; exact hr.scope.dv,
+    by rw [vals_push]; intro fr hfr n v hv; unfold TyEnv.declOk; rw [htd]; exact hr.scope.dk fr hfr n v hv,
+    by rw [htd]; exact hr.scope.dn⟩,
    by rw [abs_push, ho, hr.out]; rfl, by rw [abs_push, hd]; exact hr.next,
-   fun n hn => hr.reg n (by rw [abs_push, hd] at hn; exact hn), rd_push_nowrite hr.rd i hw hrd⟩
+   fun n hn => hr.reg n (by rw [abs_push, hd] at hn; exact hn), rd_push_nowrite hr.rd i hw hrd, tok_push i hr.tok hty⟩
 
 theorem len_of_ext {a b : List Err} (h : ∃ Δ, b = a ++ Δ) : a.length ≤ b.length := by
   obtain ⟨Δ, h⟩ := h; rw [h]; simp
@@ -315,8 +387,8 @@ theorem addErr_len (k : ErrKind) (v : Name) (l o : Nat) (s : St) : (s.addErr k v
 
 /-! ### Assignment -/
 
-theorem den_bind {g : Globals} {rg : RGlobals} (hg : GlobRel g rg) (hn : GNames g) (b : Bind) :
-    StD (binding g b) (specBind false b) := by
+theorem den_bind {g : Globals} {R : Ty} {rg : RGlobals} (hg : GlobRel g rg) (hn : GNames g) (b : Bind) :
+    StD g R (binding g b) (specBind false b) := by
   intro s ss hr he
   unfold binding at he ⊢
   have x1 := exprM_ext g b.value s
@@ -362,17 +434,25 @@ theorem den_bind {g : Globals} {rg : RGlobals} (hg : GlobRel g rg) (hn : GNames 
             | some d =>
               rw [hd] at hlk
               simp only [Option.map_some, Option.some.injEq] at hlk
-              refine drel_push_emit h1 _ _ ?_ ?_ rfl (fun q hq => hh.regs q hq)
+              refine drel_push_emit h1 _ _ ?_ ?_ rfl (fun q hq => hh.regs q hq) ?_ ?_
               · simp only [abstractStep, AbsSt.emit_out, AbsSt.declIdx]
                 rw [declIdx_of_pjD hlk, r1]
                 rfl
               · simp [abstractStep, AbsSt.emit_decls]
+              · exact ⟨fun _ _ h => (nomatch h), fun _ _ h => (nomatch h)⟩
+              · intro bb hb
+                have hty' : value.ty = r.ty := Classical.not_not.mp hty
+                have hmu' : value.mutable = true := by
+                  cases hvm : value.mutable with
+                  | true => rfl
+                  | false => rw [hvm] at hmu; simp at hmu
+                simp [tyStepBad, badIf, hh.operandOk, hty', hmu', dscope_declOk h1.scope hv] at hb
 
 
 /-! ### Call statement -/
 
-theorem den_callS {g : Globals} {rg : RGlobals} (hg : GlobRel g rg) (hn : GNames g) (c : CallS) :
-    StD (callStmt g c) (specCallS false c) := by
+theorem den_callS {g : Globals} {R : Ty} {rg : RGlobals} (hg : GlobRel g rg) (hn : GNames g) (c : CallS) :
+    StD g R (callStmt g c) (specCallS false c) := by
   intro s ss hr he
   unfold callStmt at he ⊢
   unfold specCallS specVal
@@ -412,7 +492,7 @@ theorem condExprM_ext (g : Globals) (lc : LogicCond) (s : St) : ∃ Δ, (condExp
 
 theorem den_cond {g : Globals} {rg : RGlobals} (hg : GlobRel g rg) (hn : GNames g) (ss : SpecSt) :
     ∀ (lc : LogicCond) (s : St) (q : Nat) (s' : St), condExprM g lc s = (q, s') → DScope s ss → s'.errors = s.errors →
-    Trans s s' (specLogic false ss lc).1 ∧ s'.abs.reg q = (specLogic false ss lc).2 ∧ q ≤ s'.curReg ∧
+    Trans g s s' (specLogic false ss lc).1 ∧ s'.abs.reg q = (specLogic false ss lc).2 ∧ q ≤ s'.curReg ∧
       s'.abs.bound q = true
   | .mk c right, s, q, s', hq, hs, he => by
     unfold condExprM at hq
@@ -445,9 +525,9 @@ theorem den_cond {g : Globals} {rg : RGlobals} (hg : GlobRel g rg) (hn : GNames 
               · rw [if_neg hpr] at hq
                 -- the comparison instruction
                 have hc := curReg_incReg s2
-                have t3 : Held s2 lv → Held s2 rv → Trans s2 (s2.incReg.push (.condExpr lv rv c.cond s2.incReg.curReg)) [] := by
+                have t3 : Held s2 lv → Held s2 rv → Trans g s2 (s2.incReg.push (.condExpr lv rv c.cond s2.incReg.curReg)) [] := by
                   intro hhl hhr
-                  refine trans_incPush _ _ [] ?_ ?_ ?_ ?_ ?_
+                  refine trans_incPush _ _ [] ?_ ?_ ?_ ?_ ?_ ?_ ?_
                   · simp [abstractStep, AbsSt.bind_out]
                   · simp [abstractStep, AbsSt.bind_decls]
                   · intro q hq
@@ -459,12 +539,23 @@ theorem den_cond {g : Globals} {rg : RGlobals} (hg : GlobRel g rg) (hn : GNames 
                     · exact hhl.regs q hq
                     · exact hhr.regs q hq
                   · intro w hw; simp [Instr.writes] at hw; exact hw.symm
+                  · exact ⟨fun _ _ h => (nomatch h), fun _ _ h => (nomatch h)⟩
+                  · intro R' bb hb
+                    have hty' : lv.ty = rv.ty := Classical.not_not.mp hne
+                    have hpr' : rv.ty.isPrim = true := by
+                      rw [← hty']
+                      cases hp : lv.ty.isPrim with
+                      | true => rfl
+                      | false => rw [hp] at hpr; simp at hpr
+                    simp [tyStepBad, badIf, hhl.operandOk, hhr.operandOk, hty', hpr'] at hb
+                have ht3 : (s2.incReg.push (.condExpr lv rv c.cond s2.incReg.curReg)).tenv.reg s2.incReg.curReg = some (.prim .bool) := by
+                  rw [tenv_push]; exact reg_cons_eq _ _ _ _
                 have hb3 : (s2.incReg.push (.condExpr lv rv c.cond s2.incReg.curReg)).abs.bound s2.incReg.curReg = true := by
                   rw [abs_push, abs_incReg]
                   simp [abstractStep, AbsSt.bind_bound]
                 have key : s2.errors.length ≤ s.errors.length →
                     ∃ dl dr, dl = specExpr false ss c.left ∧ dr = specExpr false ss c.right ∧
-                      Trans s s2 (dl.1 ++ dr.1) ∧ s2.abs.res lv = dl.2 ∧ s2.abs.res rv = dr.2 ∧ Held s2 lv ∧ Held s2 rv := by
+                      Trans g s s2 (dl.1 ++ dr.1) ∧ s2.abs.res lv = dl.2 ∧ s2.abs.res rv = dr.2 ∧ Held s2 lv ∧ Held s2 rv := by
                   intro hle
                   have e1 : s1.errors = s.errors := eq_of_ext_len x1 (by omega)
                   have e2 : s2.errors = s1.errors := eq_of_ext_len x2 (by omega)
@@ -478,7 +569,7 @@ theorem den_cond {g : Globals} {rg : RGlobals} (hg : GlobRel g rg) (hn : GNames 
                   injection hm2 with hm2 hm2'
                   injection hm2 with hm2
                   subst hm2; subst hm2'
-                  exact ⟨_, _, rfl, rfl, t1.trans t2, by rw [t2.stable _ h1, d1], d2, h1.mono t2.mono t2.bnd, h2⟩
+                  exact ⟨_, _, rfl, rfl, t1.trans t2, by rw [t2.stable _ h1, d1], d2, h1.of_trans t2, h2⟩
                 cases right with
                 | none =>
                   dsimp only at hq
@@ -512,7 +603,7 @@ theorem den_cond {g : Globals} {rg : RGlobals} (hg : GlobRel g rg) (hn : GNames 
                       (hs.of_trans t12).of_trans (t3 hhl hhr)
                     obtain ⟨t4, r4, h4, b4⟩ := den_cond hg hn ss rc _ rightReg s5 hrc hs4 e3
                     have hheld3 : Held (s2.incReg.push (.condExpr lv rv c.cond s2.incReg.curReg)) ⟨.prim .bool, .reg s2.incReg.curReg⟩ :=
-                      ⟨by rw [curReg_push]; exact Nat.le_refl _, hb3⟩
+                      ⟨⟨by rw [curReg_push]; exact Nat.le_refl _, hb3⟩, ht3⟩
                     have hleft : s5.abs.reg s2.incReg.curReg =
                         .cmp c.cond (specExpr false ss c.left).2 (specExpr false ss c.right).2 := by
                       have := t4.stable ⟨.prim .bool, .reg s2.incReg.curReg⟩ hheld3
@@ -521,8 +612,8 @@ theorem den_cond {g : Globals} {rg : RGlobals} (hg : GlobRel g rg) (hn : GNames 
                       simp only [abstractStep]
                       rw [AbsSt.bind_reg, if_pos rfl, rl, rr]
                     have hc5 := curReg_incReg s5
-                    have t5 : Trans s5 (s5.incReg.push (.logicCond lg (s2.incReg.push (.condExpr lv rv c.cond s2.incReg.curReg)).curReg rightReg s5.incReg.curReg)) [] := by
-                      refine trans_incPush _ _ [] ?_ ?_ ?_ ?_ ?_
+                    have t5 : Trans g s5 (s5.incReg.push (.logicCond lg (s2.incReg.push (.condExpr lv rv c.cond s2.incReg.curReg)).curReg rightReg s5.incReg.curReg)) [] := by
+                      refine trans_incPush _ _ [] ?_ ?_ ?_ ?_ ?_ ?_ ?_
                       · simp [abstractStep, AbsSt.bind_out]
                       · simp [abstractStep, AbsSt.bind_decls]
                       · intro q hq
@@ -535,6 +626,8 @@ theorem den_cond {g : Globals} {rg : RGlobals} (hg : GlobRel g rg) (hn : GNames 
                           exact ⟨by have := t4.mono; rw [curReg_push] at this; exact this, t4.bnd _ hb3⟩
                         · exact ⟨h4, b4⟩
                       · intro w hw; simp [Instr.writes] at hw; exact hw.symm
+                      · exact ⟨fun _ _ h => (nomatch h), fun _ _ h => (nomatch h)⟩
+                      · intro R' bb hb; simp [tyStepBad] at hb
                     unfold specLogic
                     refine ⟨by simpa [List.append_assoc] using ((t12.trans (t3 hhl hhr)).trans t4).trans t5, ?_,
                       by rw [curReg_push]; exact Nat.le_refl _, ?_⟩
@@ -546,8 +639,8 @@ theorem den_cond {g : Globals} {rg : RGlobals} (hg : GlobRel g rg) (hn : GNames 
                       rw [AbsSt.bind_bound]; simp
 
 
-theorem den_ifCondCalc {g : Globals} {rg : RGlobals} (hg : GlobRel g rg) (hn : GNames g) (c : IfCond)
-    (lb le ln : Name) (isElse : Bool) : StD (ifCondCalc g c lb le ln isElse) (specIfCond false c) := by
+theorem den_ifCondCalc {g : Globals} {R : Ty} {rg : RGlobals} (hg : GlobRel g rg) (hn : GNames g) (c : IfCond)
+    (lb le ln : Name) (isElse : Bool) : StD g R (ifCondCalc g c lb le ln isElse) (specIfCond false c) := by
   intro s ss hr he
   unfold ifCondCalc at he ⊢
   unfold specIfCond
@@ -572,9 +665,11 @@ theorem den_ifCondCalc {g : Globals} {rg : RGlobals} (hg : GlobRel g rg) (hn : G
         injection hm2 with hm2 hm3
         injection hm2 with hm2
         subst hm2; subst hm3
-        refine drel_push_emit (drel_trans hr t1) _ _ ?_ ?_ rfl (fun q hq => hh.regs q hq)
+        refine drel_push_emit (drel_trans hr t1) _ _ ?_ ?_ rfl (fun q hq => hh.regs q hq) ?_ ?_
         · simp only [abstractStep, AbsSt.emit_out]; rw [r1]
         · simp [abstractStep, AbsSt.emit_decls]
+        · exact ⟨fun _ _ h => (nomatch h), fun _ _ h => (nomatch h)⟩
+        · intro bb hb; simp [tyStepBad, badIf, hh.operandOk] at hb
   | logic lc =>
     dsimp only at he ⊢
     cases hq : condExprM g lc s with
@@ -585,9 +680,11 @@ theorem den_ifCondCalc {g : Globals} {rg : RGlobals} (hg : GlobRel g rg) (hn : G
       obtain ⟨t1, r1, hq1, hb1⟩ := den_cond hg hn ss lc s q s1 hq hr.scope he
       refine drel_push_emit (drel_trans hr t1) _ _ ?_ ?_ rfl (fun q' hq' => by
         simp only [Instr.reads, List.mem_cons, List.not_mem_nil, or_false] at hq'
-        subst hq'; exact ⟨hq1, hb1⟩)
+        subst hq'; exact ⟨hq1, hb1⟩) ?_ ?_
       · simp only [abstractStep, AbsSt.emit_out]; rw [r1]
       · simp [abstractStep, AbsSt.emit_decls]
+      · exact ⟨fun _ _ h => (nomatch h), fun _ _ h => (nomatch h)⟩
+      · intro bb hb; simp [tyStepBad] at hb
 
 /-! ### Returns -/
 
@@ -596,19 +693,20 @@ theorem abs_setReturn (s : St) : s.setReturn.abs = s.abs := abs_of_ctx rfl
 theorem innerUsed_setReturn (s : St) (n : Name) : s.setReturn.innerUsed n = s.innerUsed n := by
   unfold St.innerUsed St.setReturn; rw [frames_mapFrames]; simp [List.any_map, Function.comp_def]
 
-theorem drel_setReturn {s : St} {ss : SpecSt} (hr : DRel s ss) : DRel s.setReturn ss :=
-  ⟨⟨by unfold ScopeRel; rw [vals_setReturn]; exact hr.scope.sc, by rw [abs_setReturn, vals_setReturn]; exact hr.scope.dv⟩,
+theorem drel_setReturn {g : Globals} {R : Ty} {s : St} {ss : SpecSt} (hr : DRel g R s ss) : DRel g R s.setReturn ss :=
+  ⟨⟨by unfold ScopeRel; rw [vals_setReturn]; exact hr.scope.sc, by rw [abs_setReturn, vals_setReturn]; exact hr.scope.dv,
+    by rw [vals_setReturn]; exact hr.scope.dk, hr.scope.dn⟩,
    by rw [abs_setReturn]; exact hr.out, by rw [abs_setReturn]; exact hr.next,
    fun n hn => hr.reg n (by rw [abs_setReturn] at hn; exact hn),
    rd_same hr.rd (by
      intro b hb
      simp [St.setReturn, St.mapFrames] at hb ⊢
      obtain ⟨b', hb', rfl⟩ := hb
-     exact hr.rd.sync b' hb') rfl rfl⟩
+     exact hr.rd.sync b' hb') rfl rfl, tok_of_ctx rfl hr.tok⟩
 
-theorem den_nestedReturn {g : Globals} {rg : RGlobals} (hg : GlobRel g rg) (hn : GNames g) (e : Expr)
-    (s : St) (ss : SpecSt) (hr : DRel s ss) (he : (nestedReturn g e s).1.errors = s.errors) :
-    DRel (nestedReturn g e s).1 (specJret false e ss) := by
+theorem den_nestedReturn {g : Globals} {R : Ty} {rg : RGlobals} (hg : GlobRel g rg) (hn : GNames g) (e : Expr)
+    (s : St) (ss : SpecSt) (hr : DRel g R s ss) (he : (nestedReturn g e s).1.errors = s.errors) :
+    DRel g R (nestedReturn g e s).1 (specJret false e ss) := by
   unfold nestedReturn at he ⊢
   unfold specJret
   cases hm : exprM g e s with
@@ -628,13 +726,19 @@ theorem den_nestedReturn {g : Globals} {rg : RGlobals} (hg : GlobRel g rg) (hn :
       injection hm2 with hm2 hm3
       injection hm2 with hm2
       subst hm2; subst hm3
-      refine drel_setReturn (drel_push_emit (drel_trans hr t1) _ _ ?_ ?_ rfl (fun q hq => hh.regs q hq))
+      refine drel_setReturn (drel_push_emit (drel_trans hr t1) _ _ ?_ ?_ rfl (fun q hq => hh.regs q hq) ?_ ?_)
       · simp only [abstractStep, AbsSt.emit_out]; rw [r1]
       · simp [abstractStep, AbsSt.emit_decls]
+      · exact ⟨fun _ _ h => (nomatch h), fun _ _ h => (nomatch h)⟩
+      · intro bb hb
+        simp only [tyStepBad, badIf, hh.operandOk, if_true, List.nil_append] at hb
+        split at hb
+        · cases hb
+        · simp at hb; subst hb; rfl
 
 theorem den_fnReturn {g : Globals} {rg : RGlobals} (hg : GlobRel g rg) (hn : GNames g) (resTy : Ty) (e : Expr) (rc : Bool)
-    (s : St) (ss : SpecSt) (hr : DRel s ss) (he : (fnReturn g resTy e rc s).1.errors = s.errors) :
-    DRel (fnReturn g resTy e rc s).1 (specRet false e ss) := by
+    (s : St) (ss : SpecSt) (hr : DRel g resTy s ss) (he : (fnReturn g resTy e rc s).1.errors = s.errors) :
+    DRel g resTy (fnReturn g resTy e rc s).1 (specRet false e ss) := by
   unfold fnReturn at he ⊢
   unfold specRet
   have x1 := exprM_ext g e s
@@ -691,13 +795,18 @@ theorem den_fnReturn {g : Globals} {rg : RGlobals} (hg : GlobRel g rg) (hn : GNa
             injection hm2 with hm2
             subst hm2; subst hm3
             have h1 := drel_trans hr t1
+            have hrt' : r.ty = resTy := (Classical.not_not.mp hrt).symm
             split
-            · refine drel_push_emit h1 _ _ ?_ ?_ rfl (fun q hq => hh.regs q hq)
+            · refine drel_push_emit h1 _ _ ?_ ?_ rfl (fun q hq => hh.regs q hq) ?_ ?_
               · simp only [abstractStep, AbsSt.emit_out]; rw [r1]
               · simp [abstractStep, AbsSt.emit_decls]
-            · refine drel_push_emit h1 _ _ ?_ ?_ rfl (fun q hq => hh.regs q hq)
+              · exact ⟨fun _ _ h => (nomatch h), fun _ _ h => (nomatch h)⟩
+              · intro bb hb; simp [tyStepBad, badIf, hh.operandOk, hrt'] at hb
+            · refine drel_push_emit h1 _ _ ?_ ?_ rfl (fun q hq => hh.regs q hq) ?_ ?_
               · simp only [abstractStep, AbsSt.emit_out]; rw [r1]
               · simp [abstractStep, AbsSt.emit_decls]
+              · exact ⟨fun _ _ h => (nomatch h), fun _ _ h => (nomatch h)⟩
+              · intro bb hb; simp [tyStepBad, badIf, hh.operandOk, hrt'] at hb
         · exfalso
           rw [c1] at hlen
           by_cases hrt : resTy ≠ r.ty
